@@ -6,6 +6,30 @@ HOOK_COMMITS = ["3713a50"]
 
 # id -> (technique, level text, level note, design ref)
 CHECKS = {
+ "C03": ("exhaustive enumeration of publishing paths x configurations with a per-inode event-order monitor on the intercepted call trace, plus every fsync failing in turn",
+         "Every publishing API path x writer front-end x value size x maintenance on/off is executed on the real code; the call trace must show, for the inode that becomes visible, last content event < successful fsync < write-bits stripped <= rename/link, and nothing but reads/stat/atime/unlink afterwards. auto_sync(false) cells are the control that the monitor can tell the difference. Each fsync of each cell then fails with EIO/ENOSPC: error or documented panic, never a publication.",
+         "Judges call order, not what a disk does after power loss. Trusted: shim trace (inode of every fd/path event).",
+         "DESIGN.md §4 C03"),
+ "C13": ("exhaustive configuration-matrix enumeration against a stack-resolution reference model",
+         "All 9198 cells of write side x read-only list x per-level content (incl. primary/secondary shard placement) x operation x populate outcome are run on the real API; result, judge arguments, populate arguments, before/after snapshots of every level, which levels were opened, temp-file and source residue are compared with a 150-line reference model.",
+         "Trusted: the reference model in harness/src/props/stackmx.rs, snapshot code.",
+         "DESIGN.md §4 C13"),
+ "C14": ("exhaustive configuration-matrix enumeration with an inode-logging checker against a reference model",
+         "All 44608 cells of 1-3 level stacks x contents x {get, ensure, get_or_update x actions} x populate {A, B, NotFound, error} x checker {none, logging byte-equality, panicking, library byte-equality}: success iff all compared copies are identical, every redundant copy appears in the checker's invocation log, errors and panics reach the caller, without a checker nothing after the first hit is opened.",
+         "Trusted: reference model, inode identity of checker arguments.",
+         "DESIGN.md §4 C14"),
+ "C15": ("exhaustive configuration-matrix enumeration with a mutating-call monitor and recursive snapshots of read-only roots",
+         "Every C13/C14 cell with a read-only level, plus ReadOnlyCache alone over missing/empty/populated/shard-less roots and present, absent, reserved and malformed names: no creating/renaming/unlinking/chmod/truncating/writing/mtime-setting call may target a read-only root and snapshots must be equal up to atime of a found entry.",
+         "Histories on stacked caches are monitored inside the C11 exploration as well. Trusted: shim trace, snapshot code.",
+         "DESIGN.md §4 C15"),
+ "C19": ("exhaustive configuration-matrix enumeration x umask with handle and mode inspection",
+         "C13 and C14 matrices x umask {000,022,077} (127962 cells): F_GETFL, lseek(SEEK_CUR), read-to-end of every returned handle after judge and checker consumed the files, st_mode of everything visible under the key name.",
+         "The O_RDWR throw-away file returned when no write cache exists is out of scope (not cached data).",
+         "DESIGN.md §4 C19"),
+ "C20": ("exhaustive enumeration of operation x front-end x depth x checker at four directory sizes, comparing intercepted call-count vectors and descriptor tables",
+         "148 scenario cells x pre-population {0,10,100,2000}: identical per-kind call counts across sizes, no directory listing, at most two probes per cache directory per lookup, peak open files+streams <= 2 (3 with checker), nothing left open (shim table and /proc/self/fd), no lock call.",
+         "For touch, the bound counts distinct files probed (filetime retries a failed open of the same path). Trusted: shim fd accounting.",
+         "DESIGN.md §4 C20"),
  "C07": ("exhaustive small-scope enumeration of directory populations on a real filesystem against a clock-queue reference model",
          "Every population of key-named files over 3 ranks x 3 read-mark relations (all mark orders inside equal ranks, both listing orders, stray subdirectories) x every capacity is materialised on tmpfs, pruned by the real raw_cache::prune (and, for a fixed stride, by plain::Cache::set and sharded::Cache::put with the trigger scripted to fire), and the before/after delta is compared with the classical Second Chance queue under some tie order, with exact survivor metadata. Complete for the stated small scope (n<=5 sequences / n<=7 multisets quick; 8 / 12 thorough).",
          "Trusted: reference clock queue (shared with C08), snapshot code, shim's sorted readdir order; timestamps set explicitly; virtual clock.",
